@@ -72,3 +72,21 @@ func errorsIs(err, target error) bool {
 // refKey is an order-preserving key for valid dates (chronological order = numeric order of the key);
 // it is cheaper for a solver than the day ordinal and is itself tied to refOrdinal by the C07 lemma harness.
 func refKey(y, m, d int) int { return (y*16+m)*32 + d }
+
+// refOrdinalJ: days since 0001-01-01, January-based closed form (years >= -4000000000).
+func refOrdinalJ(y, m, d int) int {
+	const shift = 4000000000 // multiple of 400
+	a := uint64(y - 1 + shift)
+	days := int(365*a+a/4-a/100+a/400) - (shift/400)*146097
+	cum := [13]int{0, 0, 31, 59, 90, 120, 151, 181, 212, 243, 273, 304, 334}
+	off := 0
+	for k := 1; k <= 12; k++ {
+		if m == k {
+			off = cum[k]
+		}
+	}
+	if refLeap(y) && m > 2 {
+		off++
+	}
+	return days + off + d - 1
+}
